@@ -15,7 +15,9 @@ FUNCTIONS = ['hotxlfp.grammarparser.parser:FormulaParser.p_expression_arithmetic
              'hotxlfp.grammarparser.parser:FormulaParser.p_expression_number']
 RULE = ('42 fixed formulas (as written; compared with the model only) and 2500*scale (thorough 60000) seeded expression trees of '
         'depth <= 6 quick, <= 9 thorough: 60 % arithmetic trees, 25 % one comparison, 15 % top-level & chains of 2..4 integer '
-        'operands. Leaves: integer literals (15 primes), decimals, leading-dot decimals, percent and power literals, 4 variables, '
+        'operands. Leaves: integer literals (15 primes), decimals, leading-dot decimals, percent and power literals, 5 variables (va vb v_c rate_x and ovr '
+        '- ovr is registered with 999 and answered with 41 by the host\'s callVariable listener through its setter: the oracle and the '
+        'model environment take 41), '
         '5 cell references in the four $ patterns and either case, and (5 % of the leaves) the variables e_na/e_num/e_ref bound to '
         'the error values #N/A/#NUM!/#REF! - the value of the tree is then the error met first, left to right; a quarter of the '
         'decimal leaves have integer part 0..39 and two decimals 01..99 (as a rule no dyadic fraction: the literal denotes the '
@@ -24,10 +26,12 @@ RULE = ('42 fixed formulas (as written; compared with the model only) and 2500*s
         'stand for 4 % of the operands of + - * /, for one side (20 %: both sides) of 4 % of the comparisons and for 10 % of the '
         'parts of the & chains: a blank counts as 0 under + - * /, as the empty text under &, as the zero of the other side\'s '
         'kind in a comparison. Inner nodes: + - * '
-        '/, unary minus, calls of the host function ID, parenthesised comparisons used as numbers, and (5 % of the operands of + '
+        '/, unary minus, calls of a host function on one argument (ID for 70 % of the call nodes, ABS for 30 %: both registered by the '
+        'host as the identity, ABS thereby standing in front of the shipped builtin - ABS(-3) is worth -3 to the oracle; in the model '
+        'environment both are `(first)`), parenthesised comparisons used as numbers, and (5 % of the operands of + '
         '- * /) a parenthesised concatenation of integers read as the number its digits spell. In 30 % of the comparisons, when '
         'all intermediate values of one side are doubles (integers below 2^53), the other side is a twin of the same exact value '
-        'written differently (n, n.0, 2n/2, .5*2n; the side itself when not whole) - the comparison sits on its boundary. The host function and the '
+        'written differently (n, n.0, 2n/2, .5*2n; the side itself when not whole) - the comparison sits on its boundary. The two host functions and the '
         'cell and variable listeners evaluate further formulas on the same parser during the evaluation. Each tree is rendered '
         'with minimal parentheses (for the precedence the statement prescribes), fully parenthesised, and with white space '
         '(a blank, two blanks, a tab, a newline or CR LF - drawn alike - before an operator, parenthesis or comma with probability 0.3, a blank after + - * / & , ( with 0.2; never inside <= >= <> nor between a name and its parenthesis) and, half of the time, a redundant outer pair of parentheses. Ahead of '
@@ -64,7 +68,10 @@ TRUSTED = ['ply.yacc LALR(1) table construction and conflict resolution: modelle
            'float arithmetic is compared with exact rational arithmetic up to 1e-9 relative error (absolute below 1)',
            'the oracle\'s reference evaluators exact (numbers, logicals, digit text, blanks, error values) and vexact (dates in '
            'milliseconds since 1899-12-30, arrays as flattened lists) are written by hand from the usual reading below',
-           'valued trees: DATE and SUM are the library\'s builtins (and the model\'s), not judged for themselves']
+           'valued trees: DATE and SUM are the library\'s builtins (and the model\'s), not judged for themselves',
+           'the model environment (ENV) is written by hand beside real_parser: ovr = 41 (not the registered 999), ID and ABS as '
+           '`(first)`; the model has no callVariable listener - that the listener\'s answer and the host\'s ABS win is judged by the '
+           'oracle (exact: a call node is worth its argument, ovr is worth 41) and by the agreement with that environment']
 ASSUMPTIONS = ['relative precedence of & versus + - * / is not fixed by the statement: & appears only in top-level chains '
                'with atomic or parenthesised operands and inside parentheses as an operand of + - * /',
                'usual reading of the values: unary minus and + - * / read a logical as 1/0, + - * / read digit text as its number; & joins the '
@@ -75,7 +82,10 @@ ASSUMPTIONS = ['relative precedence of & versus + - * / is not fixed by the stat
                'valued trees: a date plus or minus a number of days is that date-time shifted (to the millisecond), the difference of two '
                'dates is their distance in days, dates compare by instant, DATE(y,m,d) is midnight of that day; + - * / between an array '
                'and a scalar or a one-element array ([x] or [[x]]) works on every element, between two arrays of the same length '
-               'pairwise, the nesting of the answer being left open; SUM adds the elements']
+               'pairwise, the nesting of the answer being left open; SUM adds the elements',
+               'what a callVariable listener hands to its setter is the value of the variable in that evaluation, whatever was '
+               'registered under the name (ovr: 999 registered, 41 answered, 41 expected); a function the host registers under the '
+               'name of a shipped builtin (ABS) is the one a call of that name evaluates']
 
 # the reading the statement prescribes (1 = loosest)
 SPEC = {'=': (1, 'left'), '<>': (1, 'left'), '<': (1, 'left'), '>': (1, 'left'), '<=': (1, 'left'), '>=': (1, 'left'),
